@@ -11,7 +11,7 @@ import itertools
 
 from ..core import AnchorError, call_name, norm, short, own_nodes, kwarg, FUNC_TYPES
 from ..cfg import cfg_of
-from ..lib import calls_in, stmts_in, gate, must_pass, node_has, params, dominating_facts, xnorm, atom_key, decide, selection_of, key_function, fact_accept, emission_points
+from ..lib import calls_in, stmts_in, gate, must_pass, node_has, params, dominating_facts, xnorm, atom_key, decide, selection_of, key_function, fact_accept, emission_points, loop_escapes
 from ..summaries import check_summary
 
 CTX = 'jedi.inference.context'
@@ -36,7 +36,7 @@ def rule_a(repo, chk):
     ok = len(adv) == 1 and norm(adv[0].value) == 'context.parent_context'
     chk.ob('C03.a', ok, adv[0] if adv else lp, 'the loop advances only by context = context.parent_context', str([short(a) for a in adv]))
     # no break/continue that skips a scope
-    esc = [x for x in ast.walk(lp) if isinstance(x, (ast.Break, ast.Continue, ast.Return))]
+    esc = loop_escapes(lp)
     chk.ob('C03.a', not esc, lp, 'no break/continue/return inside the walk (no scope is skipped)')
     ys = _yields(f)
     in_loop = [y for y in ys if any(a is lp for a in repo.ancestors(y))]
@@ -253,8 +253,17 @@ def rule_g(repo, chk):
                 return 'climb'
             return None
         bad = []
+        # two atoms `X == c1`, `X == c2` with different constants cannot both hold: such assignments are no inputs
+        eqs = {}
+        for nm, text in atoms:
+            e = ast.parse(text, mode='eval').body
+            if isinstance(e, ast.Compare) and len(e.ops) == 1 and isinstance(e.ops[0], ast.Eq) and isinstance(e.comparators[0], ast.Constant):
+                eqs.setdefault(norm(e.left), []).append(nm)
+        exclusive = [g for g in eqs.values() if len(g) > 1]
         for bits in itertools.product((False, True), repeat=len(keys)):
             facts = dict(zip([k[0] for k in keys], bits))
+            if any(sum(1 for nm in g if facts[nm]) > 1 for g in exclusive):
+                continue
             env = {k: (v if pol else not v) for (nm, k, pol), v in zip(keys, bits)}
             got = decide(fn, starts[0], lambda key_, n, env=env: True if n is starts[0] else env.get(key_), label, pure_methods=('index',))
             if got != {want(facts)}:
